@@ -92,4 +92,5 @@ META.update({
 
 from . import c06  # noqa
 from . import c12  # noqa
-from . import c01  # noqa
+from . import leanlemmas  # noqa
+from . import c05  # noqa
